@@ -309,7 +309,10 @@ pub(crate) fn recv_batch_sync<T: Send>(
       let mut guard = receiver.shared.internal.lock();
       guard.waiting_sync_receivers.retain(|w| w.state != done_ptr);
       drop(guard);
-      return Err(RecvError::Disconnected);
+      // The last sender is gone, but values sent before that may still be
+      // buffered (another receiver was notified of them and has not taken them
+      // yet): loop back to phase 1, which drains the buffer first and reports
+      // Disconnected only once it is empty.
     }
   }
 }
@@ -361,12 +364,14 @@ pub(crate) fn recv_sync<T: Send>(receiver: &Receiver<T>) -> Result<T, RecvError>
       let mut guard = receiver.shared.internal.lock();
       guard.waiting_sync_receivers.retain(|w| w.state != done_ptr);
       drop(guard);
-      return Err(RecvError::Disconnected);
+      // The last sender is gone, but values sent before that may still be
+      // buffered (another receiver was notified of them and has not taken them
+      // yet): loop back to phase 1, which drains the buffer first and reports
+      // Disconnected only once it is empty.
     }
   }
 }
 
-/// The synchronous, blocking receive operation with a timeout.
 /// The synchronous, blocking receive operation with a timeout.
 pub(crate) fn recv_timeout_sync<T: Send>(
   receiver: &Receiver<T>,
@@ -374,84 +379,78 @@ pub(crate) fn recv_timeout_sync<T: Send>(
 ) -> Result<T, RecvErrorTimeout> {
   let start_time = Instant::now();
 
-  // First, try a non-blocking receive.
-  match receiver.shared.try_recv_core() {
-    Ok(item) => return Ok(item),
-    Err(TryRecvError::Disconnected) => return Err(RecvErrorTimeout::Disconnected),
-    Err(TryRecvError::Empty) => { /* Continue to blocking path */ }
-  }
+  loop {
+    // --- Phase 1: Attempt a non-blocking receive ---
+    match receiver.shared.try_recv_core() {
+      Ok(item) => return Ok(item),
+      Err(TryRecvError::Disconnected) => return Err(RecvErrorTimeout::Disconnected),
+      Err(TryRecvError::Empty) => {}
+    }
+    if start_time.elapsed() >= timeout {
+      return Err(RecvErrorTimeout::Timeout);
+    }
 
-  // Declare state and waiter exactly once on the stack - no per-iteration allocation.
-  let done_flag = AtomicU8::new(STATE_WAITING);
-  let done_ptr = &done_flag as *const AtomicU8;
-  let waiter = SyncWaiter {
-    thread: thread::current(),
-    state: done_ptr,
-  };
+    // --- Phase 2: Prepare to park (one waiter record per registration) ---
+    let done_flag = AtomicU8::new(STATE_WAITING);
+    let done_ptr = &done_flag as *const AtomicU8;
+    let waiter = SyncWaiter {
+      thread: thread::current(),
+      state: done_ptr,
+    };
 
-  // Lock once to enqueue the waiter, with a final pre-park re-check.
-  {
-    let mut guard = receiver.shared.internal.lock();
-
-    if !guard.queue.is_empty()
-      || (receiver.shared.capacity == 0
-        && (!guard.waiting_sync_senders.is_empty() || !guard.waiting_async_senders.is_empty()))
+    // --- Phase 3: Lock, re-check, and commit to parking ---
     {
-      drop(guard);
-      match receiver.shared.try_recv_core() {
-        Ok(item) => return Ok(item),
-        Err(TryRecvError::Disconnected) => return Err(RecvErrorTimeout::Disconnected),
-        Err(TryRecvError::Empty) => {}
+      let mut guard = receiver.shared.internal.lock();
+
+      if !guard.queue.is_empty()
+        || (receiver.shared.capacity == 0
+          && (!guard.waiting_sync_senders.is_empty() || !guard.waiting_async_senders.is_empty()))
+      {
+        continue; // Loop to retry receive.
       }
-    } else {
+
       if guard.sender_count == 0 {
         return Err(RecvErrorTimeout::Disconnected);
       }
 
       guard.waiting_sync_receivers.push_back(waiter);
     }
-  }
 
-  loop {
-    let elapsed = start_time.elapsed();
-    if elapsed >= timeout {
-      // Attempt atomic cancellation.
-      match done_flag.compare_exchange(
-        STATE_WAITING,
-        STATE_CANCELLED,
-        Ordering::SeqCst,
-        Ordering::SeqCst,
-      ) {
-        Ok(_) => {
-          // Eagerly unlink so the stack frame can safely return.
-          let mut guard = receiver.shared.internal.lock();
-          guard.waiting_sync_receivers.retain(|w| w.state != done_ptr);
-          return Err(RecvErrorTimeout::Timeout);
-        }
-        Err(_) => {
-          // SUCCESS or CLOSED: a sender committed the handoff concurrently or channel closed. Must complete.
-          match receiver.shared.try_recv_core() {
-            Ok(item) => return Ok(item),
-            Err(TryRecvError::Disconnected) => return Err(RecvErrorTimeout::Disconnected),
-            Err(TryRecvError::Empty) => unreachable!("state was finished but channel empty"),
+    // --- Phase 4: Wait for a notification, a close, or the deadline ---
+    loop {
+      let st = done_flag.load(Ordering::Acquire);
+      if (st & 0x01) != 0 {
+        break; // Notified of a queued item, or closed.
+      }
+      let elapsed = start_time.elapsed();
+      if elapsed >= timeout {
+        // Attempt atomic cancellation.
+        match done_flag.compare_exchange(
+          STATE_WAITING,
+          STATE_CANCELLED,
+          Ordering::SeqCst,
+          Ordering::SeqCst,
+        ) {
+          Ok(_) => {
+            // Eagerly unlink so the stack frame can safely return.
+            let mut guard = receiver.shared.internal.lock();
+            guard.waiting_sync_receivers.retain(|w| w.state != done_ptr);
+            return Err(RecvErrorTimeout::Timeout);
           }
+          // A sender (or the last sender's close) committed concurrently: honor it.
+          Err(_) => break,
         }
       }
+      thread::park_timeout(timeout - elapsed);
     }
 
-    let remaining_timeout = timeout - elapsed;
-    thread::park_timeout(remaining_timeout);
-
-    // Check if a sender committed the handoff.
-    let st = done_flag.load(Ordering::Acquire);
-    if (st & 0x01) != 0 {
-      match receiver.shared.try_recv_core() {
-        Ok(item) => return Ok(item),
-        Err(TryRecvError::Disconnected) => return Err(RecvErrorTimeout::Disconnected),
-        Err(TryRecvError::Empty) => {} // Spurious wakeup - loop to re-check timeout
-      }
-    }
-    // Spurious wakeup with no handoff committed - loop to re-check timeout without
-    // re-acquiring the lock or re-enqueuing.
+    // Notified or closed. A notifier unlinks the record, a close leaves it queued:
+    // make sure it is gone before this frame's flag goes away, then retry from
+    // phase 1 - the queued item may meanwhile have been taken by another
+    // receiver (then we re-register or time out), and after a close the buffer
+    // is drained before Disconnected is reported.
+    let mut guard = receiver.shared.internal.lock();
+    guard.waiting_sync_receivers.retain(|w| w.state != done_ptr);
+    drop(guard);
   }
 }
